@@ -3,15 +3,16 @@ package main
 import (
 	"errors"
 	"fmt"
+	"github.com/taskctl/taskctl/pkg/verifhooks"
 	"math/rand"
 	"os"
 	"os/exec"
 	"path/filepath"
-	"sync/atomic"
 	"sort"
 	"strconv"
 	"strings"
 	"sync"
+	"sync/atomic"
 	"time"
 
 	"github.com/taskctl/taskctl/pkg/scheduler"
@@ -32,6 +33,8 @@ type schedCfg struct {
 	nested []*schedCfg
 	// shared: all task stages of this graph use ONE *task.Task and are told apart by a stage-level env var
 	shared bool
+	// viaConfig: the graph is built by the configuration loader from a YAML document (top level only)
+	viaConfig bool
 }
 
 const (
@@ -64,6 +67,9 @@ func (c *schedCfg) describe() string {
 	s := c.line(nil) + " order=" + joinInts(c.order, ",")
 	if c.shared {
 		s += " shared-task"
+	}
+	if c.viaConfig {
+		s += " built-by-config-loader"
 	}
 	for i, nc := range c.nested {
 		if nc != nil {
@@ -384,6 +390,9 @@ type schedPlan struct {
 
 // nested pipelines need dependencies registered before children: build parents first
 func buildAll(c *schedCfg) (*builtGraph, error) {
+	if c.viaConfig {
+		return buildViaConfig(c)
+	}
 	all := &builtGraph{stages: map[string]*scheduler.Stage{}, deps: map[string][]*scheduler.Stage{}, allow: map[string]bool{}}
 	// two passes so that "^parent" entries exist before nested graphs are built: build top-level deps first
 	g, err := buildGraphTop(c, all)
@@ -589,4 +598,98 @@ func runSchedCase(p *schedPlan) (obs *schedObs, rel [][]string, buildErr error) 
 		r.mu.Unlock()
 	}
 	return obs, rel, nil
+}
+
+// buildViaConfig builds the same graph through the configuration loader (internal/config: buildPipeline,
+// pipeline-to-pipeline links) from a YAML document instead of constructing Stage values. The declared
+// dependencies recorded for the monitors come from the case, never from the loaded graph.
+func buildViaConfig(c *schedCfg) (*builtGraph, error) {
+	dir := newScratchDir("schedcfg")
+	defer os.RemoveAll(dir)
+	var tasks, pipes strings.Builder
+	var emit func(c *schedCfg, prefix, pl string)
+	emit = func(c *schedCfg, prefix, pl string) {
+		fmt.Fprintf(&pipes, "  %q:\n", pl)
+		for _, i := range c.order {
+			name := fmt.Sprintf("%s%d", prefix, i)
+			fmt.Fprintf(&pipes, "    - name: %q\n", name)
+			if c.nested != nil && c.nested[i] != nil {
+				fmt.Fprintf(&pipes, "      pipeline: %q\n", "pl_"+name)
+			} else {
+				fmt.Fprintf(&pipes, "      task: %q\n", name)
+				fmt.Fprintf(&tasks, "  %q:\n    command: [\"true\"]\n", name)
+			}
+			if len(c.deps[i]) > 0 {
+				var ds []string
+				for _, d := range c.deps[i] {
+					ds = append(ds, fmt.Sprintf("%q", fmt.Sprintf("%s%d", prefix, d)))
+				}
+				fmt.Fprintf(&pipes, "      depends_on: [%s]\n", strings.Join(ds, ", "))
+			}
+			if cc := condCmd(c.cond[i]); cc != "" {
+				fmt.Fprintf(&pipes, "      condition: %q\n", cc)
+			}
+			if c.allow[i] {
+				fmt.Fprintf(&pipes, "      allow_failure: true\n")
+			}
+		}
+		for i := 0; i < c.n; i++ {
+			if c.nested != nil && c.nested[i] != nil {
+				name := fmt.Sprintf("%s%d", prefix, i)
+				emit(c.nested[i], name+".", "pl_"+name)
+			}
+		}
+	}
+	emit(c, "", "top")
+	file := filepath.Join(dir, "tasks.yaml")
+	doc := "pipelines:\n" + pipes.String()
+	if tasks.Len() > 0 {
+		doc = "tasks:\n" + tasks.String() + doc
+	}
+	os.WriteFile(file, []byte(doc), 0644)
+	cl := verifhooks.NewConfigLoader(verifhooks.NewConfig())
+	cfg, err := cl.Load(file)
+	if err != nil {
+		return nil, err
+	}
+	all := &builtGraph{stages: map[string]*scheduler.Stage{}, deps: map[string][]*scheduler.Stage{}, allow: map[string]bool{}}
+	all.g = cfg.Pipelines["top"]
+	if all.g == nil {
+		return nil, fmt.Errorf("pipeline top missing after load")
+	}
+	var collect func(c *schedCfg, prefix string, g *scheduler.ExecutionGraph, inherited []*scheduler.Stage) error
+	collect = func(c *schedCfg, prefix string, g *scheduler.ExecutionGraph, inherited []*scheduler.Stage) error {
+		nodes := g.Nodes()
+		for i := 0; i < c.n; i++ {
+			name := fmt.Sprintf("%s%d", prefix, i)
+			st := nodes[name]
+			if st == nil {
+				return fmt.Errorf("stage %s missing from the loaded pipeline", name)
+			}
+			all.stages[name] = st
+			all.allow[name] = c.allow[i]
+		}
+		for i := 0; i < c.n; i++ {
+			name := fmt.Sprintf("%s%d", prefix, i)
+			var ds []*scheduler.Stage
+			for _, d := range c.deps[i] {
+				ds = append(ds, nodes[fmt.Sprintf("%s%d", prefix, d)])
+			}
+			ds = append(ds, inherited...)
+			all.deps[name] = ds
+			if c.nested != nil && c.nested[i] != nil {
+				if nodes[name].Pipeline == nil {
+					return fmt.Errorf("stage %s lost its pipeline", name)
+				}
+				if err := collect(c.nested[i], name+".", nodes[name].Pipeline, ds); err != nil {
+					return err
+				}
+			}
+		}
+		return nil
+	}
+	if err := collect(c, "", all.g, nil); err != nil {
+		return nil, err
+	}
+	return all, nil
 }
